@@ -98,10 +98,16 @@ impl KeyMap {
 #[verifier::external_body] pub struct SharedTree { t: u8 }
 #[verifier::external_body] pub struct TreeGuard { g: u8 }
 impl TreeGuard {
+    #[verifier::external_body] pub fn lookup(&self, k: &Vec<SqlValue>) -> (r: Result<Vec<usize>, Opq>) { unimplemented!() }
     #[verifier::external_body] pub fn insert(&mut self, k: Vec<SqlValue>, p: usize) -> (r: Result<(), Opq>) { unimplemented!() }
     #[verifier::external_body] pub fn delete(&mut self, k: &Vec<SqlValue>) -> (r: Result<bool, Opq>) { unimplemented!() }
 }
 #[verifier::external_body] fn acquire_btree_lock(t: &SharedTree) -> (r: Result<TreeGuard, Opq>) { unimplemented!() }
+#[verifier::external_body] pub struct StorageError { e: u8 }
+// acquire_btree_lock(btree)?  inside a function returning StorageError (From conversion of the lock error)
+#[verifier::external_body] fn lock_or_err(t: &SharedTree) -> (r: Result<TreeGuard, StorageError>) { unimplemented!() }
+// StorageError::UniqueConstraintViolation(format!(.. index name, column names ..))
+#[verifier::external_body] fn unique_violation(index_name: &Str, metadata: &IndexMetadata) -> (r: StorageError) { unimplemented!() }
 
 pub enum IndexData { InMemory { data: KeyMap }, DiskBacked { btree: SharedTree, page_manager: Opq } }
 // IndexMetadata reduced (R2): the other free variable of the lifted steps
@@ -123,6 +129,7 @@ pub open spec fn ix_with(m: Ix, k: Key, p: usize) -> Ix {
 //@@ update_step
 //@@ delete_step
 //@@ rebuild_step
+//@@ check_step
 
 /// THE MIRROR for a user-defined index: `keys[j]` is the index key of the row at position j; the map holds, under each key, exactly the
 /// positions of the rows with that key - each once, no key with an empty list (what a rebuild from the rows produces, up to the order in a list)
@@ -338,6 +345,20 @@ ITEMS = {
         (*old(index_data)) is InMemory ==> (*final(index_data)) is InMemory
             && umirror((*final(index_data))->InMemory_data.view(), keys_of(metadata.columns@, table_schema, table_rows@)),
 '''),
+    'check_step': dict(
+        file='crates/vibesql-storage/src/database/indexes/index_manager.rs', path='impl IndexManager::fn check_unique_constraints_for_insert', ret='res',
+        fragment=dict(kind='match', index=0, expect_scrutinee='index_data', tail='Ok(())',
+                      sig='fn check_step(index_data: &IndexData, metadata: &IndexMetadata, index_name: &Str, key_values: Vec<SqlValue>) -> Result<(), StorageError>'),
+        rewrites=[
+            ('re', r'(?s)let column_names: Vec<String> = metadata\s*\.columns\s*\.iter\(\)\s*\.map\(\|c\| c\.column_name\.clone\(\)\)\s*\.collect\(\);\s*return Err\(StorageError::UniqueConstraintViolation\(format!\((?:[^()]|\([^()]*\))*\)\)\);',
+             'return Err(unique_violation(index_name, metadata));', 2),
+            ('re', r'acquire_btree_lock\(btree\)\?', 'lock_or_err(btree)?', 1),
+        ],
+        contract='''
+    ensures
+        // in memory: the insert is refused EXACTLY when the index already holds the key
+        (*index_data) is InMemory ==> ((res is Err) <==> (*index_data)->InMemory_data.view().dom().contains(key_values@)),
+'''),
     'insert_step': dict(
         file=_F, path='impl IndexManager::fn add_to_indexes_for_insert',
         fragment=dict(kind='match', index=0, expect_scrutinee='index_data',
@@ -376,6 +397,7 @@ OBLIGATIONS = {
     'key_update_new': ['post:key_component_is_the_named_column_of_the_new_row'],
     'key_delete': ['post:key_component_is_the_named_column_prefix_truncated_and_normalized'],
     'key_rebuild': ['post:key_component_is_the_named_column_prefix_truncated_and_normalized'],
+    'check_step': ['post:refused_exactly_when_the_index_holds_the_key'],
     'rebuild_step': ['post:a_rebuild_produces_the_mirror_of_the_rows_whatever_was_there_before', 'proof:loop_invariant_and_termination', 'safety:index_in_bounds'],
     'insert_step': ['post:position_appended_to_the_rows_key_nothing_else_changes'],
     'update_step': ['post:position_leaves_the_old_key_and_enters_the_new_key_nothing_else_changes'],
@@ -389,9 +411,10 @@ CANARIES = ['canary_update', 'canary_key', 'canary_keeps']
 TRUSTED = [
     'R6: the per-index step (the `match index_data { .. }` expression, with its free variables index_data, metadata, the key vectors and row_index as parameters) and the key-building closures (`|col| { .. }`) are lifted out of the three maintenance functions; what surrounds them is NOT under contract: the loop over the registry (`for (index_name, metadata) in &self.indexes`, the table-name filter, `self.index_data.get_mut(index_name)`), `.iter().map(closure).collect()` over metadata.columns (assumed: one component per index column, in definition order), and the `old_key_values != new_key_values` guard of the update step',
     'external_body KeyMap: BTreeMap<Vec<SqlValue>, Vec<usize>> through push_at (entry().or_insert_with(Vec::new).push()), contains_key / retain_ne / is_empty_at (the list returned by get_mut: retain(|&idx| idx != p), is_empty()), remove - R11 rewrite of the get_mut block',
-    'SqlValue, Str, Opq, TableSchema opaque (TableSchema::get_column_index: uninterpreted function col_index of the name); norm / trunc = normalize_for_comparison / apply_prefix_truncation uninterpreted (external_body stubs); Option::expect rewritten to expect_col, which REQUIRES Some (a missing index column would panic: precondition col_ok, established by CREATE INDEX validation); Row / IndexColumn reduced to the fields read',
+    'SqlValue, Str, Opq, StorageError, TableSchema opaque (TableSchema::get_column_index: uninterpreted function col_index of the name); norm / trunc = normalize_for_comparison / apply_prefix_truncation uninterpreted (external_body stubs); Option::expect rewritten to expect_col, which REQUIRES Some (a missing index column would panic: precondition col_ok, established by CREATE INDEX validation); Row / IndexColumn reduced to the fields read',
     'the disk-backed arm (SharedTree, TreeGuard, acquire_btree_lock) is opaque and NOT under contract; observed there: update calls BTreeIndex::delete(old_key), which is handed no row position',
     'C15 mirror (umirror) is over the key SEQUENCE keys[j] = index key of the row at position j; the order of positions inside one key list is not part of it (a rebuild lists them ascending; DML appends); insert_step_keeps_mirror / update_step_keeps_mirror are verified wrapper functions written here (not repository code) that call the extracted steps through their contracts',
+    'check_step: the `match index_data` of IndexManager::check_unique_constraints_for_insert (index_manager.rs) with its early returns, lifted with the fall-through value Ok(()); the error construction (column-name iterator chain + format!) is replaced by the opaque unique_violation, `acquire_btree_lock(btree)?` by lock_or_err (the From conversion of the lock error); the disk-backed arm (TreeGuard::lookup) is NOT under contract',
     'rebuild_step: the in-memory arm of the `match index_data` in IndexManager::rebuild_indexes; its key closure is elided to build_key (R6b; the closure itself is verified as key_rebuild; `metadata.columns.iter().map(closure).collect()` ASSUMED to apply it to every index column in order); the disk-backed arm (sort_by + BTreeIndex::bulk_load + lock) is replaced by the opaque rebuild_disk_backed; KeyMap::clear = BTreeMap::clear',
     'that positions stay valid after a DELETE (they shift) is not maintained by delete_step but by the rebuild that follows (units I-resolve, K-undo)',
 ]
